@@ -273,7 +273,7 @@ func init() {
 		s := x.sliceBytes(st, args[0].(*SliceVal))
 		c := x.toInt(args[1].(*Term))
 		if !(c.Op == "int" && c.Num.Sign() == 0) {
-			panic(unsupported("IndexByte with a byte other than NUL"))
+			return one(x.sindexFacts(st, s, U8(c)))
 		}
 		return one(x.lenOut(Idx0(s)))
 	})
